@@ -179,6 +179,12 @@ def audit(pid):
             res["broken"].append(f"{n}: disallowed axioms {sorted(set(axs[n]) - ALLOWED_AXIOMS)}")
         else:
             res["discharged"] += 1
+    if os.environ.get("VERIF_TIER") == "thorough":
+        # independent re-check of the compiled proof terms by the toolchain's stand-alone kernel checker
+        rc = run(["lake", "env", "leanchecker"] + mods, cwd=LEAN, timeout=3000)
+        res["leanchecker"] = "ok" if rc.returncode == 0 else f"FAILED rc={rc.returncode}: {(rc.stdout + rc.stderr)[-400:]}"
+        if rc.returncode != 0:
+            res["broken"].append(f"leanchecker rejects {' '.join(mods)}: {(rc.stdout + rc.stderr)[-300:]}")
     hits = forbidden_tokens()
     if hits:
         res["broken"] += ["forbidden token: " + h for h in hits]
@@ -495,6 +501,10 @@ class Check:
                               "translator harness/translate.py for regenerated constants/kernels"],
                 theorems=a["theorems"],
             )
+        elif a.get("obligations"):
+            cov.update(lean_obligations=a["obligations"], lean_discharged=a["discharged"], theorems=a["theorems"])
+        if a.get("leanchecker"):
+            cov["kernel_recheck"] = "lake env leanchecker (stand-alone kernel re-check of the compiled Props modules): " + a["leanchecker"]
         if self.level == "other" or self.explanation:
             cov["explanation"] = self.explanation or "see MANIFEST level text"
         cov.update(self.extra)
